@@ -1451,7 +1451,8 @@ class SyncObj(object):
                     cluster.discard(node)
                 elif request[0] == 'rem':
                     cluster.add(node)
-        self.__serializer.serialize((data, lastAppliedEntries[1], lastAppliedEntries[0], cluster), lastAppliedEntries[0][1])
+        # (the enabled code version travels with the internal data too: a user serializer does not get the object's attributes)
+        self.__serializer.serialize((data, lastAppliedEntries[1], lastAppliedEntries[0], cluster, self.__enabledCodeVersion), lastAppliedEntries[0][1])
 
     def __loadDumpFile(self, clearJournal):
         try:
@@ -1490,6 +1491,8 @@ class SyncObj(object):
 
             if self.__conf.dynamicMembershipChange:
                 self.__updateClusterConfiguration([node for node in data[3] if node != self.__selfNode])
+            if len(data) > 4:
+                self.__enabledCodeVersion = data[4]
             self.__onSetCodeVersion(self.__enabledCodeVersion)
         except:
             logger.exception('failed to load full dump')
